@@ -50,6 +50,9 @@ CHECKS = {
             'sequences chosen by symbolic selectors with symbolic values; assertions: member-wise agreement after every step, value = valuedict[index] and '
             'closest-value write (solver-decided over the symbolic written float), accepted iff inside current symbolic limits, at most one active controller '
             'named by the output', '5/C18'),
+    'C15': ('model_checking', 'the real Server._processCfg / SecNode / Attached / MultiEvent / poll thread start-up / shutdown_modules on module sets whose '
+            'attachment graph (all graphs with out-degree <= 1 incl. cycles on <= 3/4 modules), declaration order and flags (polling, configured write, '
+            'failing init, missing or wrongly typed attachment) are chosen by symbolic selectors; oracle on the event log', '5/C15'),
 }
 NOT_YET = 'check not built yet in this round (planned per DESIGN.md section 5); not claimed until its harness runs clean'
 NOT_APPLICABLE = {}
